@@ -153,12 +153,17 @@ func (p *parser) parseMessageText() (dataItem ast.ItemNode, ok bool) {
 
 	switch formatCode {
 	case formatCodeList:
-		values := make([]interface{}, length)
+		// The declared number of children is not trusted for allocation: the
+		// slice grows as children are actually decoded. Otherwise nested lists
+		// that each declare as many children as bytes remain make the decoder
+		// allocate memory quadratic in the input length.
+		values := []interface{}{}
 		for i := 0; i < length; i++ {
-			values[i], ok = p.parseMessageText()
+			value, ok := p.parseMessageText()
 			if !ok {
 				return ast.NewEmptyItemNode(), false
 			}
+			values = append(values, value)
 		}
 		return ast.NewListNode(values...), true
 
